@@ -331,8 +331,15 @@ def translate() -> tuple[str, dict]:
     v_expr, v_idx = site(fverify, sites['verify'][0])
 
     # index argument: the index written to is the one stored in the entry, the one read is the stored one
-    src_w = [ast.unparse(s) for s in ast.walk(fwrite) if isinstance(s, ast.stmt)]
-    index_args_ok = w_idx == 'arch_index' and 'self.arch_index = arch_index' in src_w and r_idx == 'self.arch_index' and v_idx == 'self.arch_index'
+    # the write side by symbolic execution of FileInfo.write (translate/c13_place.py): the archive opened is
+    # os.path.join(<vpk>.folder, get_arch_filename(<prefix>, <the arch_index argument>)), mode 'ab', the stored index is that argument,
+    # the stored offset is the end of the file before the write, and what is written is exactly the rest of the data
+    from translate import c13_place
+    pw = c13_place.analyse_write(fwrite, c13_place.module_int_consts(tree))
+    arch_rows = [r for r in pw['rows'] if r['dest'] == 'DArch']
+    w_ok = bool(arch_rows) and all(r['off'] == 'OArchEnd' and not r['stored_none'] and r['exact'] for r in arch_rows) and \
+        not any(r['dest'] == 'DOther' for r in pw['rows'])
+    index_args_ok = pw['facts']['index_is_arg'] and w_ok and r_idx == 'self.arch_index' and v_idx == 'self.arch_index'
 
     # the file that is opened: os.path.join(<vpk>.folder, <the variable holding the name>)
     def opened(fn: ast.FunctionDef, call: ast.Call):
@@ -348,10 +355,11 @@ def translate() -> tuple[str, dict]:
     jw, mw = opened(fwrite, sites['write'][0])
     jr, mr = opened(fread, sites['read'][0])
     jv, mv = opened(fverify, sites['verify'][0])
+    jw, mw = pw['facts']['join_folder'], ('ab' if pw['facts']['mode_append'] else None)
     join_ok = bool(jw and jr and jv)
     src_r = [ast.unparse(s) for s in ast.walk(fread) if isinstance(s, ast.stmt)]
     src_v = [ast.unparse(s) for s in ast.walk(fverify) if isinstance(s, ast.stmt)]
-    append_ok = mw == 'ab' and 'self.offset = file.seek(0, os.SEEK_END)' in src_w and 'file.write(arch_data)' in src_w \
+    append_ok = mw == 'ab' and w_ok \
         and mr == 'rb' and mv == 'rb' and 'data.seek(self.offset)' in src_r and 'data.seek(self.offset)' in src_v
 
     # script_write: the names only feed os.path.exists / os.stat
